@@ -63,6 +63,20 @@ def handle (op : String) (fs : List (String × String)) : String :=
     match (getField fs "bytes").bind fromHex, (getField fs "codes").bind parseNatList with
     | some b, some codes => natsToString (codes.map (specLookupBytes b))
     | _, _ => "bad-case"
+  else if op == "cmap4.hdr" then
+    -- the binary-search fields of the header as the specification defines them from segCount
+    -- (decoders that drive their search by them exist; the library's own reader ignores them)
+    match (getField fs "bytes").bind fromHex with
+    | some b =>
+      let u16 := fun (i : Nat) => (b.getD i 0).toNat * 256 + (b.getD (i+1) 0).toNat
+      let segX2 := u16 6
+      let seg := segX2 / 2
+      if b.length < 14 || seg == 0 || segX2 % 2 != 0 then "bad-header" else
+      let es := Nat.log2 seg
+      let sr := 2 * 2 ^ es
+      if u16 8 == sr && u16 10 == es && u16 12 == segX2 - sr then "ok"
+      else s!"search-fields:segCount={seg}:searchRange={u16 8}/{sr}:entrySelector={u16 10}/{es}:rangeShift={u16 12}/{segX2 - sr}"
+    | none => "bad-case"
   else if op == "cmap4.decode" then
     match (getField fs "bytes").bind fromHex with
     | some b =>
